@@ -107,57 +107,82 @@ def check_injection(rep, prog):
         params = positional_params(fn)
         exp_params = ['phi', 'dt'] + grids + ['theta0'] + ([] if D == 1 else ['frozen%d' % k for k in range(1, D + 1)]) + (['nomut1', 'nomut2'] if D == 2 else [])
         rep.ob('R-TPL', '_inject_mutations_%dD signature' % D, params == exp_params, 'parameters %s' % params, im.rel, fn.lineno, what='signature (phi, dt, grids, theta0, flags)')
-        stmts = [s for s in fn.body if not (isinstance(s, ast.Expr) and isinstance(s.value, ast.Constant))]
-        seen = set()
-        shape_ok = True
-        for st in stmts:
-            if isinstance(st, ast.Return):
-                rep.ob('R-FLOW', '_inject_mutations_%dD return' % D, ast.unparse(st.value) == 'phi', 'returns %s' % ast.unparse(st.value), im.rel, st.lineno, what='returns the density it updated')
-                continue
-            if D == 1 or isinstance(st, ast.AugAssign):
-                guard, asg = None, st        # an unguarded increment: the guard obligation below decides it
-            else:
-                if not (isinstance(st, ast.If) and len(st.body) == 1 and not st.orelse):
-                    rep.ob('R-TPL', '_inject_mutations_%dD' % D, False, 'statement not recognised: %s' % ast.unparse(st)[:60], im.rel, st.lineno, what='guarded increments only')
-                    shape_ok = False
-                    continue
-                guard, asg = st.test, st.body[0]
-            if not (isinstance(asg, ast.AugAssign) and isinstance(asg.op, ast.Add) and isinstance(asg.target, ast.Subscript) and ast.unparse(asg.target.value) == 'phi'):
-                rep.ob('R-TPL', '_inject_mutations_%dD' % D, False, 'statement not recognised: %s' % ast.unparse(asg)[:60], im.rel, asg.lineno, what='phi[e_k] += value')
-                shape_ok = False
-                continue
-            idx = [ast.unparse(e) for e in (asg.target.slice.elts if isinstance(asg.target.slice, ast.Tuple) else [asg.target.slice])]
-            ones = [i for i, v in enumerate(idx) if v == '1']
-            okidx = len(idx) == D and len(ones) == 1 and all(v in ('0', '1') for v in idx)
-            k = ones[0] + 1 if ones else None
-            rep.ob('R-IDX', '_inject_mutations_%dD target %s' % (D, idx), okidx, 'increments phi[%s]' % ', '.join(idx), im.rel, asg.lineno, what='mutations enter at the first interior point of one axis, 0 on the others')
-            if not okidx:
-                continue
-            seen.add(k)
-            if D > 1:
-                want = {'not frozen%d' % k} | ({'not nomut%d' % k} if D == 2 else set())
-                conj = set() if guard is None else set(ast.unparse(v) for v in (guard.values if isinstance(guard, ast.BoolOp) and isinstance(guard.op, ast.And) else [guard]))
-                rep.ob('R-DOM', '_inject_mutations_%dD guard axis %d' % (D, k), conj == want, 'guard `%s`; expected %s' % ('(none)' if guard is None else ast.unparse(guard), ' and '.join(sorted(want))), im.rel, st.lineno,
-                       what='no new mutations in a frozen%s population' % ('/nomut' if D == 2 else ''))
+        # what the function adds to phi for every combination of the frozen / nomut flags: abstract execution with concrete flags
+        # and symbolic grids (the statements may be written per population, or as one loop over the populations in a helper)
+        import itertools
+        from sa import miniexec as mx
+        from sa import alpha
+        known = alpha.load_table().get('__params__', {}).get(im.rel)
+        known = set(known) if known is not None else None
+        flags = [p_ for p_ in params if p_.startswith('frozen') or p_.startswith('nomut')]
+        bad_guard, bad_idx, bad_val, bad_mass, bad_ret = [], [], [], [], []
+        n_combo = 0
+        refs = {}
+        for k in range(1, D + 1):
             g = grids[k - 1]
             others = [grids[a] for a in range(D) if a != k - 1]
-            ref = 'dt/%s[1] * theta0/2 * %d/((%s[2] - %s[0])%s)' % (g, 2 ** D, g, g, ''.join(' * %s[1]' % o for o in others))
+            refs[k] = 'dt/%s[1] * theta0/2 * %d/((%s[2] - %s[0])%s)' % (g, 2 ** D, g, g, ''.join(' * %s[1]' % o for o in others))
+        for combo in itertools.product([False, True], repeat=len(flags)):
+            n_combo += 1
+            fl = dict(zip(flags, combo))
+            args = {'phi': mx.Sym('phi'), 'dt': mx.Sym('dt'), 'theta0': mx.Sym('theta0')}
+            for g in grids:
+                args[g] = mx.Sym(g)
+            args.update(fl)
+            missing = [p_ for p_ in params if p_ not in args]
+            if missing:
+                break           # the signature obligation above reports it
+            it = mx.Interp(prog, im, known_functions=known)
             try:
-                got = Translator().tr(asg.value)
-                okv = got.equals(parse_expr(ref))
-                # mass: value * trapezoid weight of node 1 on axis k * weights of node 0 on the others * grid_k[1] == dt*theta0/2
-                mass = got * parse_expr('(%s[2] - %s[0])/2' % (g, g))
-                for o in others:
-                    mass = mass * parse_expr('%s[1]/2' % o)
-                mass = mass * parse_expr('%s[1]' % g)
-                okm = mass.equals(parse_expr('dt*theta0/2'))
-            except AlgebraError:
-                okv = okm = False
-            rep.ob('R-ALG', '_inject_mutations_%dD value axis %d' % (D, k), okv, 'increment %s; expected %s' % (ast.unparse(asg.value), ref), im.rel, asg.lineno,
+                paths = it.run(fn, args)
+            except mx.Undecidable as e:
+                raise AnalysisError('_inject_mutations_%dD is not recognised: %s' % (D, e))
+            want_axes = {k for k in range(1, D + 1) if not fl.get('frozen%d' % k, False) and not fl.get('nomut%d' % k, False)}
+            ctag = ', '.join('%s=%s' % kv for kv in fl.items()) or 'no flags'
+            for outcome, events, dec in paths:
+                if outcome[0] != 'return' or mx.show(outcome[1]) != 'phi':
+                    bad_ret.append('%s: %s' % (ctag, outcome[0] + ' ' + mx.show(outcome[1])[:30] if outcome[0] == 'return' else 'raises'))
+                incs = [e for e in events if e[0] == 'augitem' and mx.show(e[1]) == 'phi']
+                other_writes = [e for e in events if e[0] == 'setitem' and e[1] == 'phi']
+                got_axes = set()
+                for e in incs:
+                    key = e[2] if isinstance(e[2], tuple) else (e[2],)
+                    ones = [a for a, v in enumerate(key) if v == 1]
+                    if e[3] != 'Add' or len(key) != D or len(ones) != 1 or any(v not in (0, 1) for v in key):
+                        bad_idx.append('%s: phi[%s] %s=' % (ctag, mx.show(key), e[3]))
+                        continue
+                    k = ones[0] + 1
+                    if k in got_axes:
+                        bad_idx.append('%s: population %d receives mutations twice' % (ctag, k))
+                    got_axes.add(k)
+                    try:
+                        got = parse_expr(mx.show(e[4]))
+                        if not got.equals(parse_expr(refs[k])):
+                            bad_val.append('population %d: increment %s; expected %s' % (k, mx.show(e[4])[:90], refs[k]))
+                        g = grids[k - 1]
+                        mass = got * parse_expr('(%s[2] - %s[0])/2' % (g, g)) * parse_expr('%s[1]' % g)
+                        for o in [grids[a] for a in range(D) if a != k - 1]:
+                            mass = mass * parse_expr('%s[1]/2' % o)
+                        if not mass.equals(parse_expr('dt*theta0/2')):
+                            bad_mass.append('population %d' % k)
+                    except AlgebraError as ex:
+                        bad_val.append('population %d: increment %s not evaluable (%s)' % (k, mx.show(e[4])[:60], ex))
+                if other_writes:
+                    bad_idx.append('%s: phi is also written by assignment' % ctag)
+                if got_axes != want_axes:
+                    bad_guard.append('%s: populations receiving mutations %s, expected %s' % (ctag, sorted(got_axes), sorted(want_axes)))
+        rep.ob('R-FLOW', '_inject_mutations_%dD return' % D, not bad_ret, '; '.join(sorted(set(bad_ret))[:2]) if bad_ret else 'returns phi', im.rel, fn.lineno, what='returns the density it updated')
+        rep.ob('R-IDX', '_inject_mutations_%dD targets' % D, not bad_idx, '; '.join(sorted(set(bad_idx))[:3]) if bad_idx else 'increments phi at the unit vectors e_k only', im.rel, fn.lineno,
+               what='mutations enter at the first interior point of one axis, 0 on the others')
+        rep.ob('R-DOM', '_inject_mutations_%dD guards' % D, not bad_guard, '; '.join(bad_guard[:3]) if bad_guard else '%d flag combinations executed abstractly: exactly the populations that are neither frozen nor mutation-free receive mutations' % n_combo,
+               im.rel, fn.lineno, what='no new mutations in a frozen%s population' % ('/nomut' if D == 2 else ''))
+        for k in range(1, D + 1):
+            bv = [b for b in bad_val if b.startswith('population %d:' % k)]
+            rep.ob('R-ALG', '_inject_mutations_%dD value axis %d' % (D, k), not bv, bv[0] if bv else 'increment equals %s' % refs[k], im.rel, fn.lineno,
                    what='influx dt*theta0/2 normalised by the trapezoid weights (grids start at 0)')
-            rep.ob('R-ALG', '_inject_mutations_%dD mass axis %d' % (D, k), okm, 'value * trapezoid weights * x_1 == dt*theta0/2', im.rel, asg.lineno, what='injected mass per step is dt*theta0/2 * (1/x_1)')
-        rep.ob('R-EXH', '_inject_mutations_%dD axes' % D, seen == set(range(1, D + 1)), 'populations receiving mutations: %s%s' % (sorted(seen), '' if shape_ok else ' (body not recognised)'),
-               im.rel, fn.lineno, what='one injection per population')
+            rep.ob('R-ALG', '_inject_mutations_%dD mass axis %d' % (D, k), ('population %d' % k) not in bad_mass and not bv, 'value * trapezoid weights * x_1 == dt*theta0/2', im.rel, fn.lineno,
+                   what='injected mass per step is dt*theta0/2 * (1/x_1)')
+        rep.ob('R-EXH', '_inject_mutations_%dD axes' % D, not bad_guard and not bad_idx, 'one injection per population that is neither frozen nor mutation-free', im.rel, fn.lineno, what='one injection per population')
 
 
 def check_frozen_migration_guard(rep, prog):
